@@ -265,8 +265,9 @@ def rule_implicit_raises(ck, repo, R, accepted):
                 continue
             spec = DAYLIGHT_TABLE.get(key)
             if spec is None:
-                raise AnalysisError(f'{m.relpath}:{node.lineno} {f.name}: new unreviewed operation `{op}` on reader data that can raise '
-                                    f'{"/".join(x.__name__ for x in IMPLICIT[kind])}; add a converting try/except or review it into DAYLIGHT_TABLE')
+                ck.defer(f'{m.relpath}:{node.lineno} {f.name}: new unreviewed operation `{op}` on reader data that can raise '
+                         f'{"/".join(x.__name__ for x in IMPLICIT[kind])}; add a converting try/except or review it into DAYLIGHT_TABLE')
+                continue
             cls, data = spec
             loc = dict(file=m.relpath, line=node.lineno, func=f.name, construct=op)
             if cls == 'guard':
